@@ -238,6 +238,37 @@ def run(ctx):
                     if res != (not flip):
                         oracle_bad.append(d)
 
+    # ---- value semantics: the model's operations return new values; in the code the results of copy / tensor product / add_qubit / queries must
+    # not share storage with their operands (a later gate on one object must not conjugate another)
+    alias_bad = []
+    from simulaqron.toolbox.stabilizer_states import StabilizerState
+    GATES1 = ["apply_X", "apply_Y", "apply_Z", "apply_H", "apply_K", "apply_S"]
+    for _ in range(300 if thorough else 60):
+        n = rng.randrange(1, 5)
+        src = S.mk_state(S.tabl(O.ref_random_tableau(n, rng)))
+        other = S.mk_state(S.tabl(O.ref_random_tableau(rng.randrange(1, 3), rng)))
+        made = {"copy": StabilizerState(src), "empty*src": StabilizerState() * src, "src*empty": src * StabilizerState(),
+                "src*other": src * other, "tensor_product": src.tensor_product(other)}
+        src == made["copy"]
+        src.contains(S.arr_of(src)[0])
+        objs = dict(made, src=src, other=other)
+        snap = {k: S.arr_of(v) for k, v in objs.items()}
+        victim = rng.choice(sorted(objs))
+        o = objs[victim]
+        for _g in range(3):
+            if o.num_qubits >= 2 and rng.random() < 0.4:
+                a, b = rng.sample(range(o.num_qubits), 2)
+                getattr(o, rng.choice(["apply_CNOT", "apply_CZ"]))(a, b)
+            else:
+                getattr(o, rng.choice(GATES1))(rng.randrange(o.num_qubits))
+        ctx.count("aliasing_probes")
+        ctx.case(("alias", victim, str(snap["src"]), str(snap["other"])), nontrivial=True)
+        for k, v in objs.items():
+            if k != victim and S.arr_of(v) != snap[k]:
+                alias_bad.append({"op": "aliasing", "mutated": victim, "changed_too": k, "n": n, "src": snap["src"], "other": snap["other"]})
+    ctx.obligation("copies, tensor products (also with the empty state) and queries share no storage with their operands: gates on one object leave the others unchanged",
+                   not alias_bad, repr(alias_bad[:1]))
+
     for c in cases[:2] + cases[-2:]:
         ctx.sample(c[1])
     failing = S.run_cases(ctx, cases, "stabilizer gates/tensor/gauss/eq/contains")
@@ -246,6 +277,9 @@ def run(ctx):
                    not oracle_bad, repr(oracle_bad[:1]))
 
     # ---- verdict -------------------------------------------------------------------------------------------------
+    if alias_bad:
+        d = alias_bad[0]
+        ctx.report("oracle:aliasing", "gates applied to `%s` also changed `%s`: the objects share their generator matrix" % (d["mutated"], d["changed_too"]), d, True)
     if oracle_bad:
         d = min(oracle_bad, key=lambda x: (x.get("n", x.get("n1", 0)), len(str(x))))
         ctx.report("oracle:%s" % d["op"], "implementation result of %s is not the conjugated/represented group" % d["op"], d, True)
